@@ -17,7 +17,9 @@ Record kcfg := {
   k_types : list bytes }.
 Record cobs := {
   b_err : bool; b_out : N; b_table : table; b_frame : bool;
-  b_calls : list bytes }.       (* the byte strings the signer was called with, in order *)
+  b_calls : list bytes;         (* the byte strings the signer was called with, in order *)
+  b_time_ok : bool }.           (* Go's time parser reads the stored document's time member back as the event's instant
+                                   (true when nothing is stored) *)
 Record kcase := {
   k_cfg : kcfg; k_evnil : bool; k_type : bytes; k_time : option bytes; k_payload : kpayload; k_pre : table;
   k_fresh : bytes; k_obs : cobs }.
@@ -36,6 +38,7 @@ Inductive kind :=
 | KFields       (* observation-only: id/source/specversion/type/time/data/datacontentype/dataschema are not as required *)
 | KSer          (* observation-only: serialized does not decode to the signer's input, serialized_hmac is not the signer's
                    result on it, or an event that must not be signed carries them *)
+| KIndent       (* observation-only: the text format is not indented / the json format is not one line *)
 | KFresh        (* observation-only: a fresh id is empty or was used twice *)
 | KModel.
 
@@ -86,7 +89,7 @@ Definition fields_ok (k : kcfg) (c : kcase) (ms : list (bytes * jv)) : bool :=
   && is_str (mget s_source ms) (sanitize (match k_source k with Some s => s | None => [] end))
   && is_str (mget s_specversion ms) v_spec
   && is_str (mget s_type ms) (sanitize (k_type c))
-  && is_str (mget s_time ms) (match k_time c with Some t => t | None => [] end)
+  && (match mget s_time ms with Some (JStr _) => true | _ => false end)
   && is_str (mget s_datacontenttype ms) (ctype (k_format k))
   && str_or_absent (mget s_dataschema ms) (sanitize (match k_schema k with Some s => s | None => [] end))
   && (match y_data (k_payload c), mget s_data ms with
@@ -94,17 +97,43 @@ Definition fields_ok (k : kcfg) (c : kcase) (ms : list (bytes * jv)) : bool :=
       | DAbsent, None => true
       | _, _ => false end).
 
+Definition drop_sig (ms : list (bytes * jv)) : list (bytes * jv) :=
+  List.filter (fun kv => negb (beqb (fst kv) s_serialized || beqb (fst kv) s_serialized_hmac)) ms.
 Definition ser_ok (k : kcfg) (c : kcase) (ms : list (bytes * jv)) (calls : list bytes) : bool :=
   let signs := negb (k_signer k =? 0) && existsb (beqb (k_type c)) (k_types k) in
   if signs then
     match mget s_serialized ms, calls with
     | Some (JStr s), [u] =>
+        (* serialized decodes to the bytes the signer was given ... *)
         (match Base64.decode s with Some u' => beqb u' u | None => false end)
+        (* ... serialized_hmac is the signer's result on them ... *)
         && str_or_absent (mget s_serialized_hmac ms) (sanitize (if k_signer k =? 1 then sig_fn (k_tag k) u else []))
+        (* ... and they are the unsigned document: the stored one without the two signature members *)
+        && (match parse_doc u with Some (JObj us) => jv_eqb (JObj us) (JObj (drop_sig ms)) | _ => false end)
     | _, _ => false
     end
   else
     match mget s_serialized ms, mget s_serialized_hmac ms, calls with None, None, [] => true | _, _, _ => false end.
+
+(* "indented for the text format": more than one line, every further line starts with the indent or closes the object;
+   the json format is one line *)
+Fixpoint lines_ok (first : bool) (b : bytes) : bool :=
+  match b with
+  | [] => true
+  | 10 :: rest =>
+      match rest with
+      | [] => true
+      | 32 :: 32 :: _ => lines_ok false rest
+      | 125 :: _ => lines_ok false rest
+      | _ => false
+      end
+  | _ :: rest => lines_ok first rest
+  end.
+Definition indent_ok (f : cformat) (b : bytes) : bool :=
+  match f with
+  | FText => negb (single_line b) && lines_ok true b
+  | _ => single_line b
+  end.
 
 Definition run_ce (c : kcase) : list kind :=
   let '(e', oc, calls) := model_ce c in
@@ -125,7 +154,9 @@ Definition run_ce (c : kcase) : list kind :=
      | Some b =>
          match parse_doc b with
          | Some (JObj ms) =>
-             (if fields_ok k c ms then [] else [KFields]) ++ (if ser_ok k c ms (b_calls o) then [] else [KSer])
+             (if fields_ok k c ms && b_time_ok o then [] else [KFields]) ++
+             (if ser_ok k c ms (b_calls o) then [] else [KSer]) ++
+             (if indent_ok (k_format k) b then [] else [KIndent])
          | _ => [KParse]
          end
      | None => [KParse]
